@@ -499,6 +499,7 @@ Boolean MACRO_Processor(PInputTag PInp, as_dynstr_t* p_dest) {
 
     if ((PInp->LineZ == 1) && (!PInp->GlobalSymbols)) {
         PushLocHandle(GetLocHandle());
+        PInp->First = False;
     }
 
     /* signal the end of the macro */
@@ -768,9 +769,10 @@ static Boolean MACRO_GetPos(PInputTag PInp, char* dest, size_t DestSize) {
 }
 
 static void MACRO_Restorer(PInputTag PInp) {
-    /* discard the local symbol space */
+    /* discard the local symbol space - if one was opened at all (a body
+       without lines, or zero repetitions, never got to its first line) */
 
-    if (!PInp->GlobalSymbols) {
+    if (!PInp->GlobalSymbols && !PInp->First) {
         PopLocHandle();
     }
 
